@@ -162,7 +162,16 @@ func total(args []string) {
 			texts++
 			for _, g := range []string{"expr", "path_eval", "leafref"} {
 				builds++
-				m, err, pan := build(g, text)
+				if nHangs >= maxHangs {
+					continue
+				}
+				var m *xpath.Machine
+				var err error
+				var pan interface{}
+				if watchdog(func() { m, err, pan = build(g, text) }) {
+					report(TOut{text, g, "build", "hang", "the constructor did not return within 30 s"})
+					continue
+				}
 				switch {
 				case pan != nil:
 					report(TOut{text, g, "build", "panic", fmt.Sprint(pan)})
@@ -182,7 +191,14 @@ func total(args []string) {
 				machines++
 				for _, mode := range []string{"run-nil", "run-tree", "run-failing"} {
 					runs++
-					o := runTotal(m, mode)
+					if nHangs >= maxHangs {
+						continue
+					}
+					var o runOutcome
+					if watchdog(func() { o = runTotal(m, mode) }) {
+						report(TOut{text, g, mode, "hang", "Run did not return within 30 s"})
+						continue
+					}
 					switch {
 					case o.pan != nil:
 						report(TOut{text, g, mode, "panic", fmt.Sprint(o.pan)})
